@@ -91,7 +91,7 @@ PROPS = {
                 "draw argument types (category-directed: numeric/int/bool/text/date-time/any, optional wrappers, value sets, multi-interval sets, extremes), draw a value in them (boundary-heavy), "
                 "evaluate, require the propagated range to exist and contain the result (floats: relative tolerance 1e-9); non-trivial = the value evaluated without error",
         "trusted_base": COMMON_TRUST + ["membership modulo the library's embeddings (harness s_dtype::mem)", "IEEE rounding not modelled (tolerance 1e-9 on float results)"],
-        "assumptions": ["floats: only exact-arithmetic (integer) instances are proved; float/text/date functions are covered by the implementation-side oracle only", "chrono is an oracle for calendar functions"],
+        "assumptions": ["floats: only exact-arithmetic (integer) instances are proved; float/text/date functions are covered by the implementation-side oracle only", "chrono is an oracle for calendar functions", "float results are tested for membership with a relative tolerance of 1e-9: a value that leaves its propagated range by a few ulps (e.g. std of {min, max} against (max-min)/sqrt 2) is attributed to IEEE rounding, which the model does not cover, and is not reported"],
         "technique": "Lean 4 proof (corner theorems for partitioned-monotone functions of arity 1 and 2 incl. capacity collapse; saturating integer +,-,*; integer sum) + model/implementation image correspondence + exhaustive-by-symbol soundness oracle on the implementation",
         "level_text": "Theorems (Props/C06.lean): for any function that is monotone or antitone in each coordinate on each (convex) partition, any argument sets and any point in them, the value lies in the propagated range (hull of corner values per box, collected into an interval set of any capacity >= 2); instances: i64 saturating +, -, * with the partitions declared in function.rs; integer sum bounds; a kernel-checked counterexample for sum over a union of intervals. The model images equal the real super_image on generated sets; all ~100 functions/aggregates and expression trees are swept by the value-in-image oracle on the real code.",
         "level_note": "Trusted: Lean kernel; harness. Modelled, not verified: float arithmetic (clamp, rounding), transcendental functions, text and calendar functions, Optional/Polymorphic/Case wrappers (oracle only).",
